@@ -1,8 +1,81 @@
+import PyGam.Model.Expectile
 import PyGam.Drv.Common
 namespace PyGam.Drv.C18
-open PyGam PyGam.Drv
+open PyGam PyGam.Drv PyGam.Expectile
 
-/-- operations of the C18 model driver (`C18 <op> <args…>`); `none` ↦ `bad-op` -/
+/-- split a token list at the separator `|` -/
+def splitBar (l : List String) : List (List String) :=
+  let rec go : List String → List String → List (List String) → List (List String)
+    | [], cur, acc => (cur.reverse :: acc).reverse
+    | t :: ts, cur, acc => if t = "|" then go ts [] (cur.reverse :: acc) else go ts (t :: cur) acc
+  go l [] []
+
+def ratVec? (n : Nat) (l : List String) : Option (Nat → Rat) := do
+  let v ← parseRats? l
+  if v.length = n then some (listToVec v) else none
+
+def showBool (b : Bool) : String := if b then "1" else "0"
+
+/-- result line of a bisection run: `e1 e2 … | lo hi e nIter conv`; `short-ratios` when the
+model asked for more ratios than were supplied (it then disagrees with the trace it was given) -/
+def showBisect {α : Type} (sh : α → String) (nr : Nat) (trace : List α) (res : BState α × Bool) : String :=
+  let used := res.1.nIter + (if res.2 then 1 else 0)
+  if used > nr then "short-ratios"
+  else joinWith " " (trace.map sh) ++ " | " ++ sh res.1.lo ++ " " ++ sh res.1.hi ++ " " ++ sh res.1.e
+    ++ " " ++ toString res.1.nIter ++ " " ++ showBool res.2
+
+/-- operations of the C18 model driver (`C18 <op> <args…>`); `none` ↦ `bad-op`
+
+* `valid e`                                   → `ok` | `ValueError`        (`validExpectile`)
+* `asym tau n | y… | mu…`                     → `asym τ yᵢ μᵢ …`
+* `balance tau n | w… | y… | mu…`             → `τ Σ_{r>0} w r − (1−τ) Σ_{r≤0} w|r|`  (exact)
+* `intercept tau s00 n fuel | w… | y… | b0`   → `β conv` : `interceptFit` from `b0`
+* `bisect q tol maxIter e0 | r0 r1 …`         → `ValueError` | `e1 e2 … | lo hi e nIter conv`   (exact rationals)
+* `bisectf q tol maxIter e0 | r0 r1 …`        → the same over IEEE doubles (bit patterns)
+-/
 def handle : List String → Option String
+  | ["valid", e] => do
+      let e ← parseRat? e
+      some (if validExpectile e then "ok" else "ValueError")
+  | "asym" :: tau :: n :: "|" :: rest => do
+      let tau ← parseRat? tau; let n ← n.toNat?
+      match splitBar rest with
+      | [ys, ms] =>
+          let y ← ratVec? n ys; let mu ← ratVec? n ms
+          some (showRatList (vecToList n (fun i => asym tau (y i) (mu i))))
+      | _ => none
+  | "balance" :: tau :: n :: "|" :: rest => do
+      let tau ← parseRat? tau; let n ← n.toNat?
+      match splitBar rest with
+      | [ws, ys, ms] =>
+          let w ← ratVec? n ws; let y ← ratVec? n ys; let mu ← ratVec? n ms
+          some (showRat (balance tau n w y mu))
+      | _ => none
+  | "intercept" :: tau :: s00 :: n :: fuel :: "|" :: rest => do
+      let tau ← parseRat? tau; let s00 ← parseRat? s00; let n ← n.toNat?; let fuel ← fuel.toNat?
+      match splitBar rest with
+      | [ws, ys, [b0]] =>
+          let w ← ratVec? n ws; let y ← ratVec? n ys; let b0 ← parseRat? b0
+          let r := interceptFit tau s00 n w y fuel b0
+          some (showRat r.1 ++ " " ++ showBool r.2)
+      | _ => none
+  | "bisect" :: q :: tol :: maxIter :: e0 :: "|" :: rs => do
+      let q ← parseRat? q; let tol ← parseRat? tol; let maxIter ← parseInt? maxIter; let e0 ← parseRat? e0
+      let rs ← parseRats? rs
+      let ratio : Nat → Rat → Rat := fun k _ => rs.getD k 0
+      match fitQuantile ratio q tol maxIter e0 with
+      | none => some "ValueError"
+      | some res =>
+          let tr := bisectTrace ratio q tol maxIter.toNat { lo := 0, hi := 1, e := e0, nIter := 0 }
+          some (showBisect showRat rs.length tr res)
+  | "bisectf" :: q :: tol :: maxIter :: e0 :: "|" :: rs => do
+      let q ← parseFloat? q; let tol ← parseFloat? tol; let maxIter ← parseInt? maxIter; let e0 ← parseFloat? e0
+      let rs ← parseFloats? rs
+      let ratio : Nat → Float → Float := fun k _ => rs.getD k 0
+      match fitQuantile ratio q tol maxIter e0 with
+      | none => some "ValueError"
+      | some res =>
+          let tr := bisectTrace ratio q tol maxIter.toNat { lo := 0, hi := 1, e := e0, nIter := 0 }
+          some (showBisect showFloat rs.length tr res)
   | _ => none
 end PyGam.Drv.C18
